@@ -28,6 +28,7 @@ import (
 	"context"
 	"errors"
 	"fmt"
+	"net"
 	"runtime"
 	"sort"
 	"strconv"
@@ -36,6 +37,8 @@ import (
 	"time"
 
 	corev1 "k8s.io/api/core/v1"
+	kerrors "k8s.io/apimachinery/pkg/api/errors"
+	kmeta "k8s.io/apimachinery/pkg/api/meta"
 	metav1 "k8s.io/apimachinery/pkg/apis/meta/v1"
 	"k8s.io/apimachinery/pkg/apis/meta/v1/unstructured"
 	kruntime "k8s.io/apimachinery/pkg/runtime"
@@ -61,28 +64,62 @@ import (
 
 const c13Group = "c13.example.org"
 
-// kinds are numbered: g < 1000 is version v1 of kind K<g>, 1000+g is version v2 of the same
-// kind (a different GVK, hence a different watch).
+// c13Group2 is a second API group serving kinds with the same Kind names; the first group's name
+// is a string prefix of it.
+const c13Group2 = "c13.example.org.eu"
+
+// Kinds are numbered g = 1000*variant + base. Every number is a different GVK, hence a different
+// watch, a different informer and a different thing for an XR to reference:
+//
+//	variant 0   c13.example.org/v1     K<base>
+//	variant 1   c13.example.org/v2     K<base>      another version of the same kind
+//	variant 2   c13.example.org.eu/v1  K<base>      the same Kind in another API group
+//	variant 3   c13.example.org/v1     K<base>x     a Kind the first one is a string prefix of
+//	variant 4   c13.example.org/v1     k<base>      the same Kind up to case
+//
+// (K1 is also a prefix of K100, K101, ..., the kinds of the XRs themselves.)
 func c13GVK(g int) schema.GroupVersionKind {
-	if g >= 1000 {
-		return schema.GroupVersionKind{Group: c13Group, Version: "v2", Kind: "K" + strconv.Itoa(g-1000)}
+	b := strconv.Itoa(g % 1000)
+	switch g / 1000 {
+	case 1:
+		return schema.GroupVersionKind{Group: c13Group, Version: "v2", Kind: "K" + b}
+	case 2:
+		return schema.GroupVersionKind{Group: c13Group2, Version: "v1", Kind: "K" + b}
+	case 3:
+		return schema.GroupVersionKind{Group: c13Group, Version: "v1", Kind: "K" + b + "x"}
+	case 4:
+		return schema.GroupVersionKind{Group: c13Group, Version: "v1", Kind: "k" + b}
 	}
-	return schema.GroupVersionKind{Group: c13Group, Version: "v1", Kind: "K" + strconv.Itoa(g)}
+	return schema.GroupVersionKind{Group: c13Group, Version: "v1", Kind: "K" + b}
 }
 
+const c13Variants = 5
+
 func c13KindOf(gvk schema.GroupVersionKind) int {
-	if gvk.Group != c13Group || !strings.HasPrefix(gvk.Kind, "K") {
-		return -1
-	}
-	n, err := strconv.Atoi(gvk.Kind[1:])
-	if err != nil || n < 0 || n >= 1000 {
-		return -1
-	}
-	switch gvk.Version {
-	case "v1":
-		return n
-	case "v2":
-		return 1000 + n
+	for v := 0; v < c13Variants; v++ {
+		k := gvk.Kind
+		switch v {
+		case 3:
+			if !strings.HasSuffix(k, "x") {
+				continue
+			}
+			k = "K" + strings.TrimSuffix(k[1:], "x")
+		case 4:
+			if !strings.HasPrefix(k, "k") {
+				continue
+			}
+			k = "K" + k[1:]
+		}
+		if len(k) < 2 || k[0] != 'K' {
+			continue
+		}
+		n, err := strconv.Atoi(k[1:])
+		if err != nil || n < 0 || n >= 1000 {
+			continue
+		}
+		if c13GVK(1000*v+n) == gvk {
+			return 1000*v + n
+		}
 	}
 	return -1
 }
@@ -107,7 +144,33 @@ func c13Obj(g int) *unstructured.Unstructured {
 	return u
 }
 
-func c13Name(n int) string { return "ctl-" + strconv.Itoa(n) }
+// Controller names as the definition / offered reconcilers build them: 0 and 1 share everything
+// after the slash, 0 is a string prefix of 2.
+var c13Names = []string{"composite/xa.c13.example.org", "claim/xa.c13.example.org", "composite/xa.c13.example.org.eu"}
+
+func c13Name(n int) string {
+	if n >= 0 && n < len(c13Names) {
+		return c13Names[n]
+	}
+	return "ctl-" + strconv.Itoa(n)
+}
+
+func c13NameOf(name string) int {
+	for i, s := range c13Names {
+		if s == name {
+			return i
+		}
+	}
+	n, err := strconv.Atoi(strings.TrimPrefix(name, "ctl-"))
+	if err != nil {
+		return -1
+	}
+	return n
+}
+
+// c13XRKind is the kind of the XRs controller n reconciles (what its collector lists): served
+// as v1 for controller 0, as v2 for controller 1, in the second API group for controller 2.
+func c13XRKind(n int) int { return 1000*(n%3) + 100 + n }
 
 var c13WT = map[string]engine.WatchType{
 	"claim":    engine.WatchTypeClaim,
@@ -196,11 +259,14 @@ type c13Thread struct {
 	state   int
 	blocked bool // observed at the last quiescence
 	hook    string
-	release chan bool
+	release chan int // 0: proceed; k > 0: the call fails with an error of class k-1
 	res     string
-	curCid  int  // set by the fake controller's Watch
-	fault   bool // pending fault for the underlying fake cache (GetInformer)
-	faults  int  // number of faults injected into this thread
+	curCid  int   // set by the fake controller's Watch
+	fault   error // pending fault for the underlying fake cache (GetInformer)
+	faults  int   // number of faults injected into this thread
+	asked   []c13WidJ // what the collector asked StopWatches to stop, in its order
+	listErr error // the collector's List of the XRs failed with this error (reset by the next List)
+	listGVK string // what the collector's last List asked for, if it was not the XRs of its controller
 	before  []string
 	seen    bool // afterDone ran
 	lastAI  map[int]bool // kinds ActiveInformers reported to this thread the last time it asked
@@ -246,6 +312,8 @@ type c13Run struct {
 	monSeen map[string]bool
 
 	eng    *engine.ControllerEngine
+	gcs    map[int]*watch.GarbageCollector // the long-lived collector of each controller name
+	ghost  map[int]int                     // last acknowledged Start/Stop per name: 0 not running, 1 running, 2 unknown
 	tinfs  *c13Infs
 	events []c13Event
 	branch []int // number of eligible threads at each round (for exhaustive enumeration)
@@ -271,29 +339,71 @@ func (r *c13Run) self() *c13Thread {
 }
 
 // park blocks the calling scenario thread until the scheduler releases it and
-// returns the fault flag of the release. Calls from any other goroutine (the
+// returns the error the release injects (nil: none). Calls from any other goroutine (the
 // scheduler's own observation calls) return immediately.
-func (r *c13Run) park(kind string, arg int) bool {
+func (r *c13Run) park(kind string, arg int) error {
 	if r.free {
 		runtime.Gosched()
-		return false
+		return nil
 	}
 	t := r.self()
 	if t == nil {
-		return false
+		return nil
 	}
 	r.mu.Lock()
 	t.state = c13Parked
 	t.hook = "p:" + kind + ":" + strconv.Itoa(arg)
 	r.mu.Unlock()
 	f := <-t.release
-	if f {
+	if f > 0 {
 		t.faults++
+		return c13Err(f-1, kind)
 	}
-	return f
+	return nil
 }
 
 var errC13 = errors.New("injected")
+
+// c13TransportErr is a transport-level error: a net.Error that is Temporary() and a timeout.
+type c13TransportErr struct{}
+
+func (c13TransportErr) Error() string   { return "injected: connection reset by peer" }
+func (c13TransportErr) Timeout() bool   { return true }
+func (c13TransportErr) Temporary() bool { return true }
+
+var _ net.Error = c13TransportErr{}
+
+// The classes of error a call that leaves the engine can fail with. The engine, the sources and
+// the collector treat them all alike (they return the error); every fault of a scenario names
+// its class so that code that starts to branch on the class is exercised on each.
+var c13ErrClasses = []string{"generic", "notfound", "conflict", "exists", "invalid", "forbidden", "nomatch", "transport", "deadline", "cancelled", "toomany"}
+
+func c13Err(class int, where string) error {
+	gr := schema.GroupResource{Group: c13Group, Resource: "things"}
+	switch c13ErrClasses[class%len(c13ErrClasses)] {
+	case "notfound":
+		return kerrors.NewNotFound(gr, where)
+	case "conflict":
+		return kerrors.NewConflict(gr, where, errC13)
+	case "exists":
+		return kerrors.NewAlreadyExists(gr, where)
+	case "invalid":
+		return kerrors.NewInvalid(schema.GroupKind{Group: c13Group, Kind: "Thing"}, where, nil)
+	case "forbidden":
+		return kerrors.NewForbidden(gr, where, errC13)
+	case "nomatch":
+		return &kmeta.NoKindMatchError{GroupKind: schema.GroupKind{Group: c13Group, Kind: "Thing"}, SearchedVersions: []string{"v1"}}
+	case "transport":
+		return &net.OpError{Op: "read", Net: "tcp", Err: c13TransportErr{}}
+	case "deadline":
+		return context.DeadlineExceeded
+	case "cancelled":
+		return context.Canceled
+	case "toomany":
+		return kerrors.NewTooManyRequests("injected", 1)
+	}
+	return errC13
+}
 
 // ---------------------------------------------------------------- fakes
 
@@ -317,9 +427,10 @@ func (c *c13Cache) GetInformer(_ context.Context, obj client.Object, _ ...cache.
 	t := c.r.self()
 	c.r.mu.Lock()
 	defer c.r.mu.Unlock()
-	if t != nil && t.fault {
-		t.fault = false
-		return nil, errC13
+	if t != nil && t.fault != nil {
+		err := t.fault
+		t.fault = nil
+		return nil, err
 	}
 	if i, ok := c.r.infs[g]; ok {
 		return i, nil
@@ -367,10 +478,11 @@ func (i *c13Infs) ActiveInformers() []schema.GroupVersionKind {
 
 func (i *c13Infs) GetInformer(ctx context.Context, obj client.Object, opts ...cache.InformerGetOption) (cache.Informer, error) {
 	g := c13KindOf(obj.GetObjectKind().GroupVersionKind())
-	if i.r.park("GI", g) {
+	if err := i.r.park("GI", g); err != nil {
+		// the real tracking cache runs (and marks the kind active); the cache below it fails
 		if t := i.r.self(); t != nil {
 			i.r.mu.Lock()
-			t.fault = true
+			t.fault = err
 			i.r.mu.Unlock()
 		}
 	}
@@ -383,8 +495,8 @@ func (i *c13Infs) RemoveInformer(ctx context.Context, obj client.Object) error {
 }
 
 func (i *c13Informer) AddEventHandler(h toolscache.ResourceEventHandler) (toolscache.ResourceEventHandlerRegistration, error) {
-	if i.r.park("AH", i.g) {
-		return nil, errC13
+	if err := i.r.park("AH", i.g); err != nil {
+		return nil, err
 	}
 	// ask the handler who it is: deliver one synthetic add event
 	probe := c13Obj(i.g)
@@ -416,8 +528,8 @@ func (i *c13Informer) RemoveEventHandler(handle toolscache.ResourceEventHandlerR
 	if !ok {
 		return errors.New("invalid registration handle")
 	}
-	if i.r.park("RH", reg.id) {
-		return errC13
+	if err := i.r.park("RH", reg.id); err != nil {
+		return err
 	}
 	i.r.mu.Lock()
 	defer i.r.mu.Unlock()
@@ -451,9 +563,9 @@ func (c *c13Ctl) Watch(src source.Source) error {
 }
 
 func (r *c13Run) newController(name string, _ manager.Manager, _ kcontroller.Options) (kcontroller.Controller, error) {
-	n, _ := strconv.Atoi(strings.TrimPrefix(name, "ctl-"))
-	if r.park("NC", n) {
-		return nil, errC13
+	n := c13NameOf(name)
+	if err := r.park("NC", n); err != nil {
+		return nil, err
 	}
 	r.mu.Lock()
 	defer r.mu.Unlock()
@@ -469,17 +581,47 @@ type c13Client struct {
 	r *c13Run
 }
 
-func (c *c13Client) List(_ context.Context, l client.ObjectList, _ ...client.ListOption) error {
+func (c *c13Client) List(_ context.Context, l client.ObjectList, opts ...client.ListOption) error {
 	t := c.r.self()
-	if c.r.park("LS", 0) {
-		return errC13
+	err := c.r.park("LS", 0)
+	if t != nil {
+		c.r.mu.Lock()
+		t.listErr = err
+		t.listGVK = ""
+		c.r.mu.Unlock()
+	}
+	if err != nil {
+		return err
 	}
 	ul, ok := l.(*unstructured.UnstructuredList)
 	if !ok || t == nil {
 		return nil
 	}
-	for i, x := range t.op.Xrs {
+	// The API server serves what was asked for: the XRs of the collector's controller under
+	// <apiVersion of the XR kind>/<Kind>List; under any other group, version or kind the XRs of
+	// some other composite kind (op.Oxrs); and only those a namespace or selector option admits
+	// (XRs are cluster scoped and the scenario's carry no labels).
+	xrs := t.op.Xrs
+	want := c13GVK(c13XRKind(t.op.N))
+	got := ul.GroupVersionKind()
+	got.Kind = strings.TrimSuffix(got.Kind, "List") // clients accept the list kind with and without the suffix
+	if got != want {
+		xrs = t.op.Oxrs
+		c.r.mu.Lock()
+		t.listGVK = got.String()
+		c.r.mon("C13:gc-listed-wrong-kind", fmt.Sprintf("the collector of controller %d (XR kind %s) listed %s", t.op.N, want, got))
+		c.r.mu.Unlock()
+	}
+	lo := &client.ListOptions{}
+	lo.ApplyOptions(opts)
+	if lo.Namespace != "" || (lo.LabelSelector != nil && !lo.LabelSelector.Empty()) || (lo.FieldSelector != nil && !lo.FieldSelector.Empty()) {
+		xrs = nil
+	}
+	for i, x := range xrs {
 		xr := ucomposite.New()
+		item := ul.GroupVersionKind()
+		item.Kind = strings.TrimSuffix(item.Kind, "List")
+		xr.SetGroupVersionKind(item)
 		xr.SetName("xr-" + strconv.Itoa(i))
 		refs := []corev1.ObjectReference{}
 		for j, ref := range x.Refs {
@@ -521,27 +663,49 @@ func (c *c13Client) List(_ context.Context, l client.ObjectList, _ ...client.Lis
 	return nil
 }
 
-// what the collector talks to: the real engine, observed
+// what the collector talks to: the real engine, observed. One per collector, i.e. long-lived:
+// the thread that runs the collector is looked up per call.
 type c13GCEngine struct {
 	*engine.ControllerEngine
 	r *c13Run
-	t *c13Thread
 }
 
 func (g *c13GCEngine) StopWatches(ctx context.Context, name string, ws ...engine.WatchID) (int, error) {
-	g.r.mu.Lock()
-	for _, w := range ws {
-		k := c13KindOf(w.GVK)
-		if w.Type != engine.WatchTypeComposedResource {
-			g.r.mon("C13:gc-stopped-non-composed-watch", fmt.Sprintf("GarbageCollectWatchesNow asked StopWatches(%s) to stop the %s watch on kind %d", name, w.Type, k))
-		} else {
-			if c13Referenced(g.t.op.Xrs)[k] {
-				g.r.mon("C13:gc-stopped-referenced-watch", fmt.Sprintf("GarbageCollectWatchesNow asked to stop the composed-resource watch on kind %d which an XR (one of %s) still references", k, mustJSON(g.t.op.Xrs)))
+	if t := g.r.self(); t != nil && t.op.Op == "gc" {
+		g.r.mu.Lock()
+		if t.listErr != nil {
+			g.r.mon("C13:gc-stopped-after-failed-list", fmt.Sprintf("the List of the XRs failed (%v) and GarbageCollectWatchesNow still asked StopWatches(%s) to stop %v: it has not seen which kinds the XRs reference", t.listErr, name, c13WatchesStr(ws)))
+		}
+		refd := c13Referenced(t.op.Xrs)
+		t.asked = nil
+		for _, w := range ws {
+			k := c13KindOf(w.GVK)
+			t.asked = append(t.asked, c13WidJ{T: c13WTName(w.Type), G: k})
+			if w.Type != engine.WatchTypeComposedResource {
+				g.r.mon("C13:gc-stopped-non-composed-watch", fmt.Sprintf("GarbageCollectWatchesNow asked StopWatches(%s) to stop the %s watch on kind %d", name, w.Type, k))
+			} else if refd[k] {
+				g.r.mon("C13:gc-stopped-referenced-watch", fmt.Sprintf("GarbageCollectWatchesNow asked to stop the composed-resource watch on kind %d (%s) which an XR (one of %s) still references", k, w.GVK, mustJSON(t.op.Xrs)))
 			}
 		}
+		if name != c13Name(t.op.N) {
+			g.r.mon("C13:gc-stopped-other-controllers-watch", fmt.Sprintf("the collector of controller %q asked to stop watches of controller %q", c13Name(t.op.N), name))
+		}
+		g.r.mu.Unlock()
 	}
-	g.r.mu.Unlock()
 	return g.ControllerEngine.StopWatches(ctx, name, ws...)
+}
+
+// collector returns the watch garbage collector of controller n: built once per run, as the
+// definition reconciler builds one per started controller, and used for every collection.
+func (r *c13Run) collector(n int) *watch.GarbageCollector {
+	r.mu.Lock()
+	defer r.mu.Unlock()
+	if gc, ok := r.gcs[n]; ok {
+		return gc
+	}
+	gc := watch.NewGarbageCollector(c13Name(n), resource.CompositeKind(c13GVK(c13XRKind(n))), &c13GCEngine{ControllerEngine: r.eng, r: r})
+	r.gcs[n] = gc
+	return gc
 }
 
 // ---------------------------------------------------------------- executing one op on the real code
@@ -605,8 +769,7 @@ func (r *c13Run) exec(t *c13Thread) string {
 		}
 		return "w:" + strings.Join(c13WatchesStr(ws), ",")
 	case "gc":
-		gc := watch.NewGarbageCollector(c13Name(op.N), resource.CompositeKind(c13GVK(100+op.N)), &c13GCEngine{ControllerEngine: r.eng, r: r, t: t})
-		if err := gc.GarbageCollectWatchesNow(ctx); err != nil {
+		if err := r.collector(op.N).GarbageCollectWatchesNow(ctx); err != nil {
 			return "err"
 		}
 		return "ok"
@@ -622,9 +785,10 @@ func (r *c13Run) exec(t *c13Thread) string {
 // ---------------------------------------------------------------- scheduler
 
 func c13NewRun(ops []c13Op) *c13Run {
-	r := &c13Run{byGoid: map[uint64]*c13Thread{}, infs: map[int]*c13Informer{}, curOf: map[int]int{}, monSeen: map[string]bool{}}
+	r := &c13Run{byGoid: map[uint64]*c13Thread{}, infs: map[int]*c13Informer{}, curOf: map[int]int{}, monSeen: map[string]bool{},
+		gcs: map[int]*watch.GarbageCollector{}, ghost: map[int]int{}}
 	for i, op := range ops {
-		r.th = append(r.th, &c13Thread{idx: i, op: op, release: make(chan bool), curCid: -1})
+		r.th = append(r.th, &c13Thread{idx: i, op: op, release: make(chan int), curCid: -1})
 	}
 	scheme := kruntime.NewScheme()
 	el := make(chan struct{})
@@ -744,10 +908,10 @@ func (r *c13Run) liveRegs() []*c13Reg {
 }
 
 // run executes the scenario under the scheduling script. script[k] selects the thread of
-// round k among the eligible ones (value mod count); a value >= 1000 also injects a fault
-// into the call the thread is parked at.
+// round k among the eligible ones (value mod 1000, mod count); a value >= 1000 also makes the
+// call the thread is parked at fail, with an error of class (value/1000 - 1) of c13ErrClasses.
 func (r *c13Run) run(script []int, maxRounds int) (deadlock bool) {
-	ghostRunning := map[int]int{} // 0 not running, 1 running, 2 unknown
+	ghostRunning := r.ghost
 	for round := 0; ; round++ {
 		if r.allDone() {
 			return false
@@ -772,6 +936,10 @@ func (r *c13Run) run(script []int, maxRounds int) (deadlock bool) {
 			v = script[round]
 		}
 		fault := v >= 1000
+		fcls := 0
+		if fault {
+			fcls = (v/1000 - 1) % len(c13ErrClasses)
+		}
 		t := r.th[el[(v%1000)%len(el)]]
 		r.branch = append(r.branch, len(el))
 		r.mu.Lock()
@@ -779,7 +947,7 @@ func (r *c13Run) run(script []int, maxRounds int) (deadlock bool) {
 		t.state = c13Running
 		r.mu.Unlock()
 		if wasNew {
-			fault = false
+			fault, fcls = false, 0
 			if r.alone(t) && (t.op.Op == "gc") {
 				ws, _ := r.eng.GetWatches(c13Name(t.op.N))
 				t.before = c13WatchesStr(ws)
@@ -803,13 +971,15 @@ func (r *c13Run) run(script []int, maxRounds int) (deadlock bool) {
 				t.state = c13Done
 				r.mu.Unlock()
 			}()
+		} else if fault {
+			t.release <- fcls + 1
 		} else {
-			t.release <- fault
+			t.release <- 0
 		}
 		r.settle()
 		r.mu.Lock()
 		st := r.status()
-		r.events = append(r.events, c13Event{T: t.idx, F: fault, St: st})
+		r.events = append(r.events, c13Event{T: t.idx, F: fault, Fc: fcls, St: st})
 		// ---- monitors evaluated at every quiescent point
 		type key struct {
 			cid, g int
@@ -821,6 +991,17 @@ func (r *c13Run) run(script []int, maxRounds int) (deadlock bool) {
 			seen[k]++
 			if seen[k] == 2 {
 				r.mon("C13:duplicate-registration", fmt.Sprintf("controller object %d has two live %s handler registrations on the informer of kind %d", reg.cid, reg.wt, reg.g))
+			}
+			// Stop cancels the controller after it removed the last handler, under both locks: from
+			// the moment the context is cancelled on, no live handler belongs to that controller object
+			if reg.cid >= 0 && reg.cid < len(r.ctls) && r.ctls[reg.cid].isCancelled() {
+				r.mon("C13:registration-after-stop", fmt.Sprintf("controller object %d (name %d) was stopped and cancelled but has a live %s handler on the informer of kind %d (round %d)", reg.cid, r.ctls[reg.cid].n, reg.wt, reg.g, round))
+			}
+		}
+		idle := true
+		for _, u := range r.th {
+			if u.state == c13Parked || u.state == c13Running {
+				idle = false
 			}
 		}
 		r.mu.Unlock()
@@ -842,6 +1023,77 @@ func (r *c13Run) run(script []int, maxRounds int) (deadlock bool) {
 			if k > 1 {
 				ghostRunning[n] = 2
 			}
+		}
+		if idle {
+			// no call is in flight (a phase boundary): the engine's locks are free, ask it
+			r.checkAtRest(fmt.Sprintf("after round %d", round))
+		}
+	}
+}
+
+func (c *c13Ctl) isCancelled() bool {
+	select {
+	case <-c.started:
+		return c.ctx.Err() != nil
+	default:
+		return false
+	}
+}
+
+// checkAtRest evaluates, while no engine call is in flight, the clauses that relate what the
+// engine reports (IsRunning, GetWatches) to the ground truth the fakes hold (contexts, handler
+// registrations) and to the acknowledged Start/Stop calls.
+func (r *c13Run) checkAtRest(when string) {
+	names := map[int]bool{}
+	for _, t := range r.th {
+		if t.op.Op != "removeInformer" {
+			names[t.op.N] = true
+		}
+	}
+	running := map[int]bool{}
+	watches := map[int]map[string]bool{}
+	for n := range names {
+		running[n] = r.eng.IsRunning(c13Name(n))
+		if g := r.ghost[n]; g != 2 && running[n] != (g == 1) {
+			r.mon("C13:isrunning-mismatch", fmt.Sprintf("%s: IsRunning(%d) = %v but the last acknowledged Start/Stop says %v", when, n, running[n], g == 1))
+		}
+		if running[n] {
+			if ws, err := r.eng.GetWatches(c13Name(n)); err == nil {
+				watches[n] = map[string]bool{}
+				for _, x := range c13WatchesStr(ws) {
+					watches[n][x] = true
+				}
+			}
+		}
+	}
+	r.mu.Lock()
+	defer r.mu.Unlock()
+	liveOf := map[int]int{} // name -> number of controller objects not cancelled
+	for _, c := range r.ctls {
+		select {
+		case <-c.started:
+		default:
+			continue // the engine's goroutine has not called Start yet
+		}
+		if c.ctx.Err() == nil {
+			liveOf[c.n]++
+			if !running[c.n] {
+				r.mon("C13:not-cancelled-after-stop", fmt.Sprintf("%s: controller %d (object %d) is not running but was never cancelled", when, c.n, c.cid))
+			}
+		}
+	}
+	for n, k := range liveOf {
+		if k > 1 {
+			r.mon("C13:controller-leaked", fmt.Sprintf("%s: %d controller objects of name %d are not cancelled", when, k, n))
+		}
+	}
+	for _, reg := range r.liveRegs() {
+		if reg.cid < 0 || reg.cid >= len(r.ctls) {
+			continue
+		}
+		c := r.ctls[reg.cid]
+		if !c.isCancelled() && running[c.n] && watches[c.n] != nil && !watches[c.n][c13WidStr(reg.wt, reg.g)] {
+			r.mon("C13:orphan-registration", fmt.Sprintf("%s: controller %d has a live %s handler on kind %d that GetWatches does not list", when, c.n, reg.wt, reg.g))
 		}
 	}
 }
@@ -900,10 +1152,15 @@ func (r *c13Run) afterDone(t *c13Thread, ghost map[int]int) {
 						}
 					}
 				}
-				if earlier {
+				switch {
+				case earlier:
 					// this very call re-created the informer (for another watch on the same kind) and then skipped this watch
 					r.mon("C13:watch-skipped-by-restarting-call", fmt.Sprintf("StartWatches(%d, ...) restarted the informer of kind %d for one watch and returned nil without a handler for %s/%d", op.N, w.G, w.T, w.G))
-				} else {
+				case !t.lastAI[w.G]:
+					// the tracking cache told this call that the informer of exactly this GVK is not active
+					// (or the call never asked) and the call still did not start the watch
+					r.mon("C13:watch-not-started", fmt.Sprintf("StartWatches(%d, %s/%d = %s) returned nil, the informer of that kind was not reported active (reported: %v) and the controller has no handler for the watch", op.N, w.T, w.G, c13GVK(w.G), t.lastAI))
+				default:
 					r.mon("C13:lost-watch-not-restarted", fmt.Sprintf("StartWatches(%d, %s/%d) returned nil but the controller has no handler on the existing informer of kind %d", op.N, w.T, w.G, w.G))
 				}
 			}
